@@ -6,6 +6,8 @@
 -/
 import Stfs.Proofs.FsPres
 import Stfs.Model.Trig
+import Stfs.Proofs.Depth
+import Stfs.Gen.Fingerprints
 namespace Stfs.C13
 open Stfs
 
@@ -91,5 +93,93 @@ theorem F05_witness :
     let s := ({} : Sys).runAll {} [(env1 1, .init (n!"/") 511), (env1 2, .mkdirAll (n!"/x/y/z") 493)]
     s.w.idx.rows.map (·.name) = [(n!"/"), (n!"/x/y/z")] := by
   decide
+
+/-! ### which rows a listing selects (outside the region of finding F10) -/
+
+/-- the name test of `GetHeaderDirectChildren`'s query: `name LIKE prefix%` and the slash-count
+    condition on `replace(name, prefix, '')` -/
+def selected (prefix_ : Name) (rootDepth : Nat) (n : Name) : Bool :=
+  like (prefix_ ++ [percent]) n &&
+    (sqlDepth n prefix_ == rootDepth || (like [percent, slash] n && sqlDepth n prefix_ == rootDepth + 1))
+
+/-- `selected` is the test the model of the query applies to a row's name -/
+theorem directQuery_uses_selected (rows : List Row) (prefix_ : Name) (d : Nat) (r : Row) (hr : r ∈ rows) :
+    ({ r with hdr := { r.hdr with linkname := [] } } ∈ Idx.directQuery rows prefix_ false d 0) ↔
+      (∃ x ∈ rows, selected prefix_ d x.name = true ∧ x.live = true ∧ x.linkname = [] ∧
+        Idx.rootSpellings.contains x.name = false ∧
+        ({ x with hdr := { x.hdr with linkname := [] } } : Row) = { r with hdr := { r.hdr with linkname := [] } }) := by
+  unfold Idx.directQuery selected
+  simp only [Bool.false_eq_true, if_false, Int.lt_irrefl, List.mem_map, List.mem_filter, Bool.and_eq_true,
+    Bool.or_eq_true, beq_iff_eq, Bool.not_eq_true', Bool.false_or]
+  constructor
+  · rintro ⟨x, ⟨hx, ⟨⟨⟨⟨h1, h2⟩, h3⟩, h4⟩, h5⟩⟩, he⟩
+    exact ⟨x, hx, ⟨h1, h2⟩, h3, h4, h5, he⟩
+  · rintro ⟨x, hx, ⟨h1, h2⟩, h3, h4, h5, he⟩
+    exact ⟨x, ⟨hx, ⟨⟨⟨⟨h1, h2⟩, h3⟩, h4⟩, h5⟩⟩, he⟩
+
+/-- (4) Exactness of the listing test.  For a directory whose `prefix` (its name with a trailing
+    slash) has no wildcard characters, and a row name `prefix ++ t` in whose remainder `t` the
+    prefix does not occur again (the region outside finding F10): the row is selected exactly
+    when `t` has no slash (a direct child) or is one component followed by a slash (a direct
+    child directory stored with its trailing slash, as foreign archives do). -/
+theorem listing_test_exact (prefix_ t : Name) (hne : prefix_ ≠ []) (hw : noWild prefix_ = true)
+    (ho : noOcc prefix_ t = true) :
+    selected prefix_ 0 (prefix_ ++ t) =
+      (countSlash t == 0 || ((prefix_ ++ t).getLast? == some slash && countSlash t == 1)) := by
+  unfold selected
+  have hl : like (prefix_ ++ [percent]) (prefix_ ++ t) = true := by
+    rw [like_literal_prefix prefix_ hw]
+    exact hasPrefixFold_of_hasPrefix _ _ (hasPrefix_append_self _ _)
+  rw [hl, sqlDepth_prefix prefix_ t hne ho, like_ends_slash]
+  simp
+
+/-- … in particular a direct child is listed and nothing below it is -/
+theorem direct_child_listed (prefix_ c : Name) (hne : prefix_ ≠ []) (hw : noWild prefix_ = true)
+    (hs : slash ∉ c) (hp : ∃ ys, prefix_ = slash :: ys) :
+    selected prefix_ 0 (prefix_ ++ c) = true := by
+  obtain ⟨ys, hy⟩ := hp
+  have ho : noOcc prefix_ c = true := noOcc_of_not_mem prefix_ c slash ys hy hs
+  rw [listing_test_exact prefix_ c hne hw ho]
+  have : countSlash c = 0 := by
+    unfold countSlash
+    exact List.count_eq_zero.mpr hs
+  simp [this]
+
+theorem deeper_not_listed (prefix_ t : Name) (hne : prefix_ ≠ []) (hw : noWild prefix_ = true)
+    (ho : noOcc prefix_ t = true) (h2 : 2 ≤ countSlash t ∨ (1 ≤ countSlash t ∧ (prefix_ ++ t).getLast? ≠ some slash)) :
+    selected prefix_ 0 (prefix_ ++ t) = false := by
+  rw [listing_test_exact prefix_ t hne hw ho]
+  rcases h2 with h | ⟨h, hl⟩
+  · have a : (countSlash t == 0) = false := by simp; omega
+    have b : (countSlash t == 1) = false := by simp; omega
+    simp [a, b]
+  · have a : (countSlash t == 0) = false := by simp; omega
+    have b : ((prefix_ ++ t).getLast? == some slash) = false := by
+      simp only [beq_eq_false_iff_ne, ne_eq]; exact hl
+    rw [a, b]
+    rfl
+
+/-- … and a row that does not start with the prefix (compared modulo ASCII case) is never listed -/
+theorem foreign_prefix_not_listed (prefix_ n : Name) (hw : noWild prefix_ = true) (d : Nat)
+    (h : hasPrefixFold n prefix_ = false) : selected prefix_ d n = false := by
+  unfold selected
+  rw [like_literal_prefix prefix_ hw, h]
+  rfl
+
+/-- non-vacuity and the boundary with F10: `/a/b/` lists `/a/b/c` and `/a/b/c/`, not `/a/b/c/d`;
+    with the prefix recurring (`/a/b/a/b/x`) the hypothesis `noOcc` fails and the test goes wrong -/
+example : selected (n!"/a/b/") 0 (n!"/a/b/c") = true ∧ selected (n!"/a/b/") 0 (n!"/a/b/c/") = true ∧
+    selected (n!"/a/b/") 0 (n!"/a/b/c/d") = false ∧
+    noOcc (n!"/a/b/") (n!"x/a/b/y") = false ∧ selected (n!"/a/b/") 0 (n!"/a/b/x/a/b/y") = true := by decide
+
+-- MIRRORS-BEGIN (maintained by bin/update-mirrors)
+/-- The parts of the model this file's theorems are about were written by hand against these
+    versions of the functions they mirror (fingerprint of each function's comment-free source,
+    regenerated on every run).  When one of them changes, this obligation fails: the change has
+    to be confirmed harmless by the correspondence, or shows up as its failing input. -/
+theorem model_mirrors_source :
+    [(n!"persisters.MetadataPersister.GetHeaderDirectChildren"), (n!"inventory.List"), (n!"fs.File.Readdir")].map Gen.fingerprintOf =
+    [some 2258247360074540872, some 1808801976671958421, some 1495984426148824387] := by decide
+-- MIRRORS-END
 
 end Stfs.C13
